@@ -416,10 +416,13 @@ fn render_xml(doc: &[DocApp]) -> String {
             app.id,
             xml_escape(&app.name)
         ));
-        for (c, n) in &app.cmds {
+        for (k, (c, n)) in app.cmds.iter().enumerate() {
+            // the abbreviation is documentation: the name of the neighbouring command, as often as not
+            let short = if app.cmds.len() > 1 && (c + k as u32) % 2 == 0 { xml_escape(&app.cmds[(k + 1) % app.cmds.len()].1) } else { "XX".to_string() };
             x.push_str(&format!(
-                "    <command code=\"{}\" short=\"XX\" name=\"{}\">\n      <request>\n        <rule avp=\"Session-Id\" required=\"true\" max=\"1\"/>\n      </request>\n      <answer>\n        <rule avp=\"Session-Id\" required=\"true\" max=\"1\"/>\n      </answer>\n    </command>\n",
+                "    <command code=\"{}\" short=\"{}\" name=\"{}\">\n      <request>\n        <rule avp=\"Session-Id\" required=\"true\" max=\"1\"/>\n      </request>\n      <answer>\n        <rule avp=\"Session-Id\" required=\"true\" max=\"1\"/>\n      </answer>\n    </command>\n",
                 c,
+                short,
                 xml_escape(n)
             ));
         }
@@ -1099,6 +1102,49 @@ impl State {
                         end.push_str(&format!("!writes-after-failure={}", sh.writes_after_fail));
                     }
                     format!("calls=[{}] written={} end={}", calls.borrow().join(";"), hexd(&sh.written), end)
+                })
+            }
+            ["cliswitch", end] => {
+                // one client object, two connections one after the other: a request is outstanding on the first when the
+                // application attaches the second; then the first connection ends (`e` close, `f` reset, `g` garbage) while
+                // the second stays open and silent. The first connection's reader has stopped: its future must complete.
+                let end = end.to_string();
+                let dict = self.dict.clone();
+                self.rt.block_on(async move {
+                    use diameter::transport::{DiameterClient, DiameterClientConfig};
+                    let _ = diameter::verif::take_events();
+                    let tail = match end.as_str() {
+                        "e" => "e",
+                        "f" => "f",
+                        _ => "d:01000003ffffffff,e",
+                    };
+                    let (rd1, rd2) = (crate::sio::parse_revs(&format!("w:20,t:5000,{}", tail)).unwrap(), crate::sio::parse_revs("s").unwrap());
+                    let s1 = crate::sio::Scripted::new(rd1, vec![]);
+                    let s2 = crate::sio::Scripted::new(rd2, vec![]);
+                    let mut client = DiameterClient::new("127.0.0.1:1", DiameterClientConfig { use_tls: false, verify_cert: false });
+                    let request = |h: u32| DiameterMessage::new(CommandCode::CreditControl, ApplicationId::CreditControl, 0x80, h, h.wrapping_add(1000), dict.clone());
+                    let mut h1 = client.verif_attach_stream(s1.clone());
+                    let d1 = dict.clone();
+                    let r1 = tokio::spawn(async move {
+                        DiameterClient::handle(&mut h1, d1).await;
+                    });
+                    let fa = client.send_message(request(501)).await;
+                    let mut h2 = client.verif_attach_stream(s2.clone());
+                    let d2 = dict.clone();
+                    tokio::spawn(async move {
+                        DiameterClient::handle(&mut h2, d2).await;
+                    });
+                    let a = match fa {
+                        Err(_) => "senderr".to_string(),
+                        Ok(f) => match tokio::time::timeout(std::time::Duration::from_secs(3600), f).await {
+                            Err(_) => "pending".to_string(),
+                            Ok(Ok(_)) => "got".to_string(),
+                            Ok(Err(_)) => "err".to_string(),
+                        },
+                    };
+                    let stopped = tokio::time::timeout(std::time::Duration::from_secs(3600), r1).await.is_ok();
+                    let _ = diameter::verif::take_events();
+                    format!("first={} reader1_stopped={}", a, stopped as u8)
                 })
             }
             ["cli", sends, rd, wr, _ans, late] => {
